@@ -28,7 +28,7 @@ def main():
     for ob in obs:
         if a.only and a.only not in ob.name:
             continue
-        r = e.solve(ob, a.timeout, want_model=True)
+        r = e.solve(ob, a.timeout, want_model=bool(a.dump), extract=(lambda eng, m: str(m)))
         print("%-8s %6.2fs  %s" % (r, ob.time, ob.name), ob.reason or "")
         if r != "unsat":
             bad += 1
